@@ -120,7 +120,92 @@ UNSAFE_ALLOWED = {
     'core::mem::maybe_uninit::MaybeUninit::<T>::assume_init_drop',
     'core::slice::<impl [T]>::get_unchecked',
     'core::slice::<impl [T]>::get_unchecked_mut',
+    # raw-pointer spellings of read / write / drop through a MaybeUninit::as_ptr()/as_mut_ptr() pointer
+    'core::ptr::const_ptr::<impl *const T>::read', 'core::ptr::mut_ptr::<impl *mut T>::read', 'core::ptr::read',
+    'core::ptr::drop_in_place', 'core::ptr::mut_ptr::<impl *mut T>::write', 'core::ptr::write',
 }
+TAME_SOURCES = {'core::mem::maybe_uninit::MaybeUninit::<T>::as_ptr', 'core::mem::maybe_uninit::MaybeUninit::<T>::as_mut_ptr'}
+TAME_SINKS = {'core::ptr::const_ptr::<impl *const T>::read', 'core::ptr::mut_ptr::<impl *mut T>::read', 'core::ptr::read',
+              'core::ptr::drop_in_place', 'core::ptr::mut_ptr::<impl *mut T>::write', 'core::ptr::write'}
+
+
+def tame_raw_locals(b):
+    """raw-pointer locals of body b that are produced only by MaybeUninit::as_ptr/as_mut_ptr (or copies of
+    such) and consumed only by ptr read / write / drop_in_place (or copies): these are modelled exactly"""
+    raw = {li for li, l in enumerate(b.locals) if ty_mentions(l['ty'], lambda t: t.get('k') == 'rawptr')}
+    bad = set()
+
+    def local_of(op):
+        pl = op.get('copy') or op.get('move')
+        if pl is not None and not pl['proj']:
+            return pl['local']
+        if pl is not None:
+            return ('proj', pl['local'])
+        return None
+    for blk in b.blocks:
+        for s in blk['stmts']:
+            if s['k'] != 'assign':
+                continue
+            dst = s['place']['local']
+            rv = s['rv']
+            k = next(iter(rv))
+            srcs = []
+            if k == 'use':
+                srcs = [local_of(rv['use'])]
+            else:
+                # any other rvalue that defines or reads a raw local is not tame
+                used = set()
+                b._rv_uses(rv, used, set())
+                for u in used & raw:
+                    bad.add(u)
+                if dst in raw and not ('rawptr' in rv and 'FakeForPtrMetadata' in rv['rawptr'].get('kind', '')):
+                    bad.add(dst)
+                continue
+            for src in srcs:
+                if isinstance(src, tuple):
+                    if src[1] in raw:
+                        bad.add(src[1])
+                    if dst in raw:
+                        bad.add(dst)
+                elif src in raw and dst not in raw:
+                    bad.add(src)
+                elif dst in raw and src not in raw:
+                    bad.add(dst)
+        t = blk['term']
+        if t['k'] == 'call':
+            name = t['callee'].get('rdef') or t['callee']['def']
+            d = t['dest']
+            if d['local'] in raw and (d['proj'] or name not in TAME_SOURCES):
+                bad.add(d['local'])
+            for i, o in enumerate(t['operands']):
+                l = local_of(o)
+                if isinstance(l, tuple):
+                    if l[1] in raw:
+                        bad.add(l[1])
+                elif l in raw and not (name in TAME_SINKS and i == 0):
+                    bad.add(l)
+        elif t['k'] in ('switch', 'assert', 'drop'):
+            used = set()
+            if t['k'] == 'switch':
+                b._op_uses(t['discr'], used)
+            elif t['k'] == 'assert':
+                b._op_uses(t['cond'], used)
+            for u in used & raw:
+                bad.add(u)
+    # copies propagate badness
+    changed = True
+    while changed:
+        changed = False
+        for blk in b.blocks:
+            for s in blk['stmts']:
+                if s['k'] == 'assign' and 'use' in s['rv']:
+                    src = local_of(s['rv']['use'])
+                    dst = s['place']['local']
+                    if not isinstance(src, tuple) and src in raw and dst in raw:
+                        if (src in bad) != (dst in bad):
+                            bad.update((src, dst))
+                            changed = True
+    return raw - bad
 
 FORBIDDEN_SUBSTR = ('core::mem::forget', 'core::mem::manually_drop', 'core::ptr::', 'core::mem::zeroed',
                     'core::mem::uninitialized', 'core::intrinsics::transmute', 'core::mem::transmute',
@@ -137,8 +222,11 @@ def census(facts):
     n = 0
     counts = {}
     for b in facts.bodies.values():
+        tame = tame_raw_locals(b)
         for li, l in enumerate(b.locals):
             n += 1
+            if li in tame:
+                continue
             if ty_mentions(l['ty'], lambda t: t.get('k') == 'rawptr'):
                 # compiler-generated raw pointers for slice-length reads are matched below
                 uses = [s for blk in b.blocks for s in blk['stmts'] if s['k'] == 'assign'
@@ -169,7 +257,7 @@ def census(facts):
                     out.append(V('CENSUS', 'unmodelled', b.id, name,
                                  'call of an unsafe core function that has no model/obligation', t.get('span'),
                                  facts.config))
-            if any(x in name for x in FORBIDDEN_SUBSTR) and name not in UNSAFE_ALLOWED \
+            if any(x in name for x in FORBIDDEN_SUBSTR) and name not in UNSAFE_ALLOWED and name not in TAME_SOURCES \
                     and name != 'core::mem::replace':
                 out.append(V('CENSUS', 'refuted', b.id, name,
                              'leak / duplication / aliasing primitive outside the modelled set', t.get('span'),
